@@ -50,6 +50,48 @@ func checkC06(r *core.Run) {
 		}
 	}
 	r.Check(okCond, "R-C06-tie", "reorg-only-with-more-work", "-", "MoveToBlock is called only when the new block's branch has more work than the tip", "the reorganisation is not conditional on the new branch having more work")
+	// the fallback after a failed reorganisation picks the best remaining branch with the same tie rule:
+	// a later-added sibling replaces the current best only with strictly more work
+	ff := p.Func("lib/chain.(*BlockTreeNode).FindFarthestNode")
+	if ff == nil {
+		r.Fail("R-C06-tie", "fallback-branch-choice", "-", "FindFarthestNode not found")
+	} else {
+		n, okFF := 0, true
+		for _, b := range ff.Blocks {
+			iff, ok := b.Instrs[len(b.Instrs)-1].(*ssa.If)
+			if !ok {
+				continue
+			}
+			bo, ok := iff.Cond.(*ssa.BinOp)
+			if !ok || !strings.Contains(bo.X.Type().String(), "float") {
+				continue
+			}
+			// which side is the candidate (a result of the recursive call), which the best so far (a phi)
+			cand := func(v ssa.Value) bool {
+				ex, ok := v.(*ssa.Extract)
+				if !ok {
+					return false
+				}
+				c, ok := ex.Tuple.(*ssa.Call)
+				return ok && an.StaticCallee(c) == ff
+			}
+			_, xPhi := bo.X.(*ssa.Phi)
+			_, yPhi := bo.Y.(*ssa.Phi)
+			switch {
+			case cand(bo.X) && yPhi:
+				n++
+				if bo.Op != token.GTR {
+					okFF = false
+				}
+			case cand(bo.Y) && xPhi:
+				n++
+				if bo.Op != token.LSS {
+					okFF = false
+				}
+			}
+		}
+		r.Check(n == 1 && okFF, "R-C06-tie", "fallback-branch-choice", p.Pos(ff.Pos()), "a sibling branch replaces the best so far only with strictly more work (the first-added branch wins ties)", fmt.Sprintf("FindFarthestNode: %d candidate/best comparisons, strict: %v - on equal work a later-added branch would replace the earlier one", n, okFF))
+	}
 	c06UndoRecord(r, p)
 	c06UndoApply(r, p)
 	c06Order(r, p)
